@@ -88,10 +88,20 @@ class Instr:
         self.wc, self.tn = wc, tn
         orig_memo = tn.create_equivalence_id
 
-        def memo(key):
-            u = orig_memo(key)
-            self.memo_ids.add(u)
-            return u
+        instr = self
+
+        class _Memo:
+            """transparent wrapper: records the identities handed out, forwards everything else (cache_clear, cache_info, ...)"""
+
+            def __call__(self_, key):
+                u = orig_memo(key)
+                instr.memo_ids.add(u)
+                return u
+
+            def __getattr__(self_, name):
+                return getattr(orig_memo, name)
+
+        memo = _Memo()
 
         for m in list(sys.modules.values()):
             if m is not None and getattr(m, "__name__", "").startswith("ethosu.vela") and \
@@ -572,10 +582,10 @@ def main():
         else:
             scns.append(dict(rp["scenario"], id=1))
     else:
-        n = 2400 if ck.thorough else 420
+        n = 2400 if ck.thorough else 360
         scns, pool = make_scenarios(ck.rng, n, hardcoded)
         nseeds = 16 if ck.thorough else 4
-        ncli = 40 if ck.thorough else 8
+        ncli = 48 if ck.thorough else 14
         cli_nets = [pool[i % len(pool)] for i in range(ncli)]
         hseeds = [0, 1] + [ck.rng.randrange(2, 1 << 32) for _ in range(nseeds - 2)]
         cli_jobs = [(list(spec), opts, hs, common._ext_dir) for spec, opts in cli_nets for hs in hseeds]
